@@ -2364,7 +2364,9 @@ class Statements(Sequence, Immutable):
         if i == 0 or i not in g:
             # Special case for models with only one statement or no dependent statements
             return symbs
-        for j, _ in nx.bfs_predecessors(g, i, sort_neighbors=lambda x: reversed(sorted(x))):
+        # Visit the statements in reverse order so that a definition never
+        # removes a symbol that an earlier statement reads as a free symbol
+        for j in sorted(nx.descendants(g, i), reverse=True):
             statement = self[j]
             if isinstance(statement, Assignment):
                 symbs -= {statement.symbol}
